@@ -18,6 +18,16 @@ impl<K: KeyT> World<K> {
     }
 
     fn fail(&mut self, prop: &str, fp: &str, what: String) {
+        // (messages quote strings in hex: megabyte strings would make megabyte reports)
+        let what = if what.len() > 700 {
+            let mut cut = 600;
+            while !what.is_char_boundary(cut) {
+                cut -= 1;
+            }
+            format!("{}...(+{} characters)", &what[..cut], what.len() - cut)
+        } else {
+            what
+        };
         if !self.cur_born.is_empty() && prop != self.cur_born && self.oracle.len() < 200 {
             let born = self.cur_born;
             let how = match born {
